@@ -551,6 +551,26 @@ def fam_method(rng, opts=None):
         e = b.expr(_rand_expr_terms(b, allow_const=False))
         b.cons(e, b.pick(["<=", ">=", "=="]) if "boxed" in b.meta["features"] else "<=", b.pick([1.0, 0.5, 2.0]))
         b.feat("user_constraint")
+    if rng.random() < 0.3 and mets:
+        # square-root metric through an ACTIVE LMI with a constant entry: maximise s subject to [[m, s],[s, 1]] >= 0
+        m0 = mets[0]
+        sroot = b.nm("t")
+        b.emit({"op": "leafexpr", "out": sroot})
+        b.exprs.append(sroot)
+        owner = "pep" if rng.random() < 0.5 else b.pick(b.funcs)[0]
+        b.lmi([[m0, sroot], [sroot, 1.0]], owner=owner)
+        b.feat("lmi_sqrt_metric" + ("" if owner == "pep" else "_on_function"))
+        mets[0] = sroot
+    elif rng.random() < 0.15 and mets:
+        # an LMI holding the same Expression objects at non-mirrored positions: [[t, u],[u, t]] (t >= |u|), u <= metric
+        t_, u_ = b.nm("t"), b.nm("t")
+        b.emit({"op": "leafexpr", "out": t_})
+        b.emit({"op": "leafexpr", "out": u_})
+        b.exprs.extend([t_, u_])
+        b.lmi([[t_, u_], [u_, t_]], owner="pep" if rng.random() < 0.6 else b.pick(b.funcs)[0])
+        b.cons(t_, "<=", mets[0])
+        b.feat("lmi_repeated_entries")
+        mets[0] = u_
     for m in mets:
         b.metric(m)
     return b.program()
